@@ -197,11 +197,48 @@ def check_C02(ctx):
 def check_C04(ctx):
     import oracles
     fs_property(ctx, "C04", "C04", ["C04_pos_arith", "C04_pos_unique", "C04_branches_dead", "C04_positions_stable", "C04_positions_wf", "C04_lastknown_not_before_content", "C04_positions_designate_content", "C04_read_is_last_written", "C04_walk_shows_last_written", "C04_read_after_create", "C04_read_after_write_file", "C04_read_is_last_written_with_writes", "C04_reachable_any_config", "C04_walk_shows_last_written_any_config", "C04_step_any_config", "C04_read_after_create_any_config"], oracles.c04, classify=classify_update_unindexed)
+    # every pipeline configuration (the property quantifies over them): in the configuration-matrix histories the position stored for
+    # every entry, followed by Fetch / Restore / File.Read, must yield what was last written, and no write may fail to map its headers
+    import crypto
+    mdata = crypto.matrix_stream(ctx)
+    nfail = 0
+    for d in mdata:
+        if d["rc"] != 0:
+            continue          # judged by C03
+        for f in crypto.c03_oracle(d):
+            positional = f["kind"] in ("fetch-differs-from-written", "restore-differs-from-written", "readfile-differs-from-written") or \
+                (f["kind"] in ("write-failed", "name-with-codec-suffix") and "tar header missing" in json.dumps(f["detail"]))
+            if not positional:
+                continue
+            nfail += 1
+            if nfail <= 3:
+                ctx.violation(f["kind"], "%s for %s under %s" % (f["kind"], f["name"], json.dumps(d["h"]["config"])), dict(history=d["h"], failing=f,
+                              how="stfsdrv run < history.json; compare the tagged readfile/restore results and the final fetch observation with history.expect"))
+    ctx.oblige("oracle: under every pipeline configuration of the matrix (%d configurations) the indexed position of every entry yields what was last written (Fetch, Restore, File.Read) and every write maps its headers onto the tape" % len(mdata),
+               nfail == 0, "%d failures" % nfail)
+    ctx.coverage.update(matrix_configs=len(mdata))
 
 
 def check_C05(ctx):
     import oracles
     fs_property(ctx, "C05", "C05", ["C05_step_appends", "C05_history_appends", "C05_records_stay", "C05_nonvacuous"], oracles.c05)
+    # every pipeline configuration: the configuration-matrix histories (codecs, encryption, signatures, both write caches) with the tape
+    # observed after every call
+    import crypto
+    mdata = crypto.matrix_stream(ctx)
+    nfail = 0
+    for d in mdata:
+        if d["rc"] != 0:
+            continue          # judged by C03
+        for f in oracles.c05(d["h"], d["res"]):
+            nfail += 1
+            if nfail <= 3:
+                ctx.violation(f["kind"], "%s at call %d (%s) under %s" % (f["kind"], f["i"], d["h"]["calls"][f["i"]]["op"], json.dumps(d["h"]["config"])),
+                              dict(history=dict(config=d["h"]["config"], blobs=d["h"]["blobs"], calls=d["h"]["calls"][:f["i"] + 1], obs=d["h"].get("obs")),
+                                   failing_call=f["i"], detail=f["detail"]))
+    ctx.oblige("oracle: under every pipeline configuration of the matrix (%d configurations) each call only appends, the tape stays on the 512-byte grid and a standard tar reader iterates it" % len(mdata),
+               nfail == 0, "%d failures" % nfail)
+    ctx.coverage.update(matrix_configs=len(mdata), matrix_calls=sum(len(d["res"]) for d in mdata))
 
 
 def check_C12(ctx):
